@@ -89,3 +89,12 @@ Theorem C14_link_spatial_columns :
   /\ continent_subselect = expected_continent_subselect /\ continent_branches = expected_continent_branches.
 Proof. repeat split; reflexivity. Qed.
 Print Assumptions C14_link_spatial_columns.
+
+(* ---- missions/database.py ---- *)
+
+(* every query runs on a cursor of its own; no query state is kept on the Database object *)
+Theorem C14_link_database_call :
+  src_database_call = expected_database_call /\ src_yield_results = expected_yield_results
+  /\ src_database_state = expected_database_state.
+Proof. repeat split; reflexivity. Qed.
+Print Assumptions C14_link_database_call.
